@@ -10,8 +10,9 @@ import (
 // frameSpans finds the SOH..EOT byte ranges in a sender's wire by following the framing rules.
 func frameSpans(w []byte) [][2]int {
 	var out [][2]int
+	prevEnd := -1 // the frames of one block follow each other directly
 	for i := 0; i < len(w); i++ {
-		if w[i] != 1 || (i > 0 && w[i-1] != '\r') {
+		if w[i] != 1 || (i > 0 && w[i-1] != '\r' && i != prevEnd) {
 			continue
 		}
 		j := i + 2
@@ -31,6 +32,7 @@ func frameSpans(w []byte) [][2]int {
 		}
 		if j+1 < len(w) && w[j] == 4 {
 			out = append(out, [2]int{i, j + 2})
+			prevEnd = j + 2
 			i = j + 1
 		}
 	}
@@ -114,6 +116,22 @@ func init() {
 				}
 				sa.outbox = append(sa.outbox, newOutMsg(genMessage(c.Rng, sa.mycall, sb.mycall, body)))
 			}
+			if i == 2 {
+				// directed: a single message whose compressed bytes sum to 0 mod 256, i.e. whose frame ends in the
+				// checksum byte 0 - the one value a reader that takes "no byte" for 0 cannot tell from a missing byte
+				for tries := 0; tries < 4000; tries++ {
+					o := newOutMsg(genMessage(c.Rng, sa.mycall, sb.mycall, 60))
+					sum := 0
+					for _, b := range fbbCompressed(o) {
+						sum += int(b)
+					}
+					if sum%256 == 0 {
+						sa.outbox = []*outMsg{o}
+						c.Res.Distribution["directed:checksum-byte-zero"]++
+						break
+					}
+				}
+			}
 			if i%4 == 1 {
 				// the outbound handler lists the same message twice (what Radio Only gateways do): the receiver sees
 				// one MID twice in a block, and only one copy is transferred
@@ -195,17 +213,34 @@ func init() {
 						}
 						fr = append(fr, clean.a.wire[o])
 					}
+					// what a receiver parses out of those bytes: the bytes as a whole, or the frame the scanner finds in
+					// them (an inserted byte that equals its right neighbour at the very end of the frame IS an intact
+					// frame followed by a stray byte: the alteration lies behind EOT+checksum, the frame holds)
+					cands := [][]byte{fr}
+					for _, s2 := range frameSpans(fr) {
+						cands = append(cands, fr[s2[0]:s2[1]])
+					}
 					accepted := false
 					for _, o := range sa.outbox {
-						if _, ok := refAccepts(fr, len(fbbCompressed(o))); ok {
-							accepted = true
+						for _, cand := range cands {
+							if _, ok := refAccepts(cand, len(fbbCompressed(o))); ok {
+								accepted = true
+							}
 						}
 					}
 					if accepted {
+						c.Res.Distribution["excluded:reference-also-accepts"]++
 						continue
 					}
 					for _, data := range pr.b.tw.inbox {
 						if bytes.Equal(data, clean.b.tw.inbox[j]) {
+							rep["frame_index"], rep["frame_span"], rep["first_edit_at"], rep["delivered_messages"], rep["all_spans"] = j, sp, first, len(pr.b.tw.inbox), fmt.Sprint(spans)
+							if e := edits[first]; len(edits) == 1 && e.kind == 'd' && first == sp[1]-1 && clean.a.wire[first] == 0 {
+								// the frame's checksum byte (value 0) was lost and nothing follows: readCompressed ignores the
+								// error of that ReadByte and judges the transfer with checksum 0
+								c.Violate("C04:missing-checksum-byte-judged-as-zero", "a transfer whose final checksum byte never arrived (the link ended behind EOT) was accepted as complete: the missing byte is read as 0, which is what the data bytes happen to sum to", rep)
+								continue
+							}
 							c.Violate("C04:invalid-frame-delivered:"+kind, "the message of a transfer whose framing (SOH header length/offset, block structure, checksum, size) no longer holds was handed to the inbound handler", rep)
 						}
 					}
